@@ -601,11 +601,11 @@ func c25Concurrent(r *simkit.Run) {
 
 func init() {
 	simkit.Register(&simkit.Harness{
-		ID:   "C25",
-		Run:  c25Run,
-		Real: []string{"leveldbstorage.PrefixStorage", "leveldbstorage.Storage", "leveldbstorage.RemoveByPrefix", "leveldbstorage.BatchRemove", "goleveldb (on the simulated disk / memory storage)"},
-		Stub: []string{"disk: simdisk (in-memory goleveldb storage with op log, error injection, clone for restart)"},
-		Rule: "sequential population: 2-4 tenants with adversarial prefixes (0x00/0xff bytes, one prefix extending another), 3-24 steps of Put/Get/Exists/Delete/Batch/Iter(range, both orders)/Remove/RemoveByPrefix/BatchRemove(range, limit 1..5)/Close/clean restart, in fault runs a write error injected at a drawn disk operation inside a batch; after every step the whole raw storage is dumped and compared with one sorted-map model. concurrent population: 2-3 tenants with non-nested adjacent prefixes run as tasks under the seeded kernel and compare their own view with their own model after each operation. distinct = event-log hash",
+		ID:          "C25",
+		Run:         c25Run,
+		Real:        []string{"leveldbstorage.PrefixStorage", "leveldbstorage.Storage", "leveldbstorage.RemoveByPrefix", "leveldbstorage.BatchRemove", "goleveldb (on the simulated disk / memory storage)"},
+		Stub:        []string{"disk: simdisk (in-memory goleveldb storage with op log, error injection, clone for restart)"},
+		Rule:        "sequential population: 2-4 tenants with adversarial prefixes (0x00/0xff bytes, one prefix extending another), 3-24 steps of Put/Get/Exists/Delete/Batch/Iter(range, both orders)/Remove/RemoveByPrefix/BatchRemove(range, limit 1..5)/Close/clean restart, in fault runs a write error injected at a drawn disk operation inside a batch; after every step the whole raw storage is dumped and compared with one sorted-map model. concurrent population: 2-3 tenants with non-nested adjacent prefixes run as tasks under the seeded kernel and compare their own view with their own model after each operation. distinct = event-log hash",
 		Assumptions: []string{"after an injected write error the failed batch may be entirely absent or entirely present, never partial", "keys and range bounds are non-empty (PrefixStorage refuses empty keys)"},
 	})
 }
